@@ -31,6 +31,7 @@ from __future__ import annotations
 import json
 import multiprocessing as mp
 import os
+import random
 import sys
 import time
 import zlib
@@ -131,7 +132,7 @@ def scan(chunk):
         else:
             fk, act, argstxt, tk, _ = sp
             args = json.loads(argstxt) if act in ("Slice", "Copy") else None
-        if act == "Conv":
+        if act == "Conv" or act == "Make":
             conv.append(txt)
             continue
         e = (fk, tk, act, sign_of(act, args))
@@ -259,6 +260,7 @@ def check_seq_level(rep, kind, variant, fk, act, args, alts, ret):
         snaps[fk] = snapshot(o)
     vc = I.copy_class(frm) if act == "Copy" else (I.conv_class(frm) if act == "Conv" else I.view_class(frm))
     cls = f"{vc}:{I.label_class(frm, act, args)}"
+    lvl = G.get("level", "seq")  # "seq", or "from-<rep>" while a root made from another representation is replayed
     rep.stats["seq_level"] += 1
 
     def detail(extra):
@@ -276,7 +278,7 @@ def check_seq_level(rep, kind, variant, fk, act, args, alts, ret):
     now = snapshot(o)
     if now != snaps[fk]:
         rep.add(
-            f"{kind}:seq:{act}:{cls}:mutates-receiver",
+            f"{kind}:{lvl}:{act}:{cls}:mutates-receiver",
             detail({"receiver_before": list(snaps[fk]), "receiver_after": list(now), "exception": repr(exc)}),
             f"{act}{pyargs(args)} changed the sequence it was called on",
         )
@@ -288,10 +290,10 @@ def check_seq_level(rep, kind, variant, fk, act, args, alts, ret):
         snaps.pop(fk, None)
     if ret == "raised":
         if not isinstance(exc, IndexError):
-            rep.add(f"{kind}:seq:{act}:{cls}:no-IndexError", detail({"observed": repr(exc or r)}), f"{act}{pyargs(args)} out of range")
+            rep.add(f"{kind}:{lvl}:{act}:{cls}:no-IndexError", detail({"observed": repr(exc or r)}), f"{act}{pyargs(args)} out of range")
         return
     if exc is not None:
-        rep.add(f"{kind}:seq:{act}:{cls}:raised-{type(exc).__name__}", detail({"exception": repr(exc)}), f"{act}{pyargs(args)} raised {exc!r}")
+        rep.add(f"{kind}:{lvl}:{act}:{cls}:raised-{type(exc).__name__}", detail({"exception": repr(exc)}), f"{act}{pyargs(args)} raised {exc!r}")
         return
     best = None
     for tk, obs in alts:
@@ -313,12 +315,12 @@ def check_seq_level(rep, kind, variant, fk, act, args, alts, ret):
         drift = []  # copy() of a collection-backed view is the view itself: no re-based record to compare
     if diffs:
         rep.add(
-            f"{kind}:seq:{act}:{cls}:" + ",".join(diffs),
+            f"{kind}:{lvl}:{act}:{cls}:" + ",".join(diffs),
             detail({"expected_state": to, **info, "observed_fields": I.view_fields(r._seq)}),
             f"{act}{pyargs(args)} result differs in {diffs}",
         )
     elif drift:
-        rep.add_drift(f"{kind}:seq:{act}:{cls}:{drift[0][0]}", f"{kind} {act}{pyargs(args)} from {frm}: real {drift[0][1]} model {drift[0][2]}")
+        rep.add_drift(f"{kind}:{lvl}:{act}:{cls}:{drift[0][0]}", f"{kind} {act}{pyargs(args)} from {frm}: real {drift[0][1]} model {drift[0][2]}")
 
 
 def check_view_level(rep, kind, variant, fk, act, args, tk, ret):
@@ -377,7 +379,7 @@ def replay_chunk(chunk):
         if not txt or '"act":"Meta"' in txt[:40]:
             continue
         fk, act, args, tk, ret, obs = parse(txt)
-        if act in ("Conv", "Copy"):
+        if act in ("Conv", "Copy", "Make"):
             continue  # few; all of them are checked at Sequence level in phase C
         rep.stats["records"] += 1
         sampled = rate > 0 and (zlib.crc32(txt.encode()) ^ salt) % 1000003 < rate * 1000003
@@ -412,11 +414,56 @@ def replay_edges(job):
             rep.stats["distinct_edges"] += 1
             if frm_nontrivial(fk):
                 rep.stats["distinct_nontrivial"] += 1
+        elif what == "make":
+            for kind in I.KINDS:
+                check_make(rep, kind, 0, item[1], item[2], item[3], item[4])
         elif what == "state":
             for kind in I.KINDS:
                 for v in G["method_variants"]:
                     check_methods(rep, kind, v, item[1])
     return rep.dump()
+
+
+def check_make(rep, kind, variant, fk, how, obs, txts):
+    """the root made from raw data given as `how` is the root view, and the frame explored from it behaves the same"""
+    state = json.loads(fk)
+    root = I.root_string(G["seed"], state[0], state[1], variant)
+    ctx = {"kind": kind, "representation": how, "root": root, "offset": state[1], "expected_state": state}
+    try:
+        made = I.make_from(kind, how, root, state[1])
+    except Exception as ex:
+        rep.add(f"{kind}:seq:Make:rep={how}:raised-{type(ex).__name__}", lambda: {**ctx, "exception": repr(ex)}, f"constructing from {how} raised {ex!r}")
+        return
+    if made is None:
+        rep.stats["representation_not_accepted"] += 1
+        return
+    o, source = made
+    rep.stats["made"] += 1
+    rep.stats["seq_level"] += 1
+    diffs, drift = [], []
+    info = I.compare_seq(o, state, root, obs, diffs, drift, check_fields=(kind != "sdv"))
+    if diffs:
+        rep.add(f"{kind}:seq:Make:rep={how}:" + ",".join(diffs), lambda: {**ctx, **info, "observed_fields": I.view_fields(o._seq)},
+                f"a sequence made from {how} with annotation_offset={state[1]} differs in {diffs}")
+        return
+    if source is not None:
+        fresh = I.make_from(kind, how, root, 0)[1]  # what such an object reads when nothing was constructed from it
+        if I.source_reading(source) != I.source_reading(fresh):
+            rep.add(f"{kind}:seq:Make:rep={how}:mutates-source",
+                    lambda: {**ctx, "source_before": list(I.source_reading(fresh)), "source_after": list(I.source_reading(source))},
+                    f"constructing from an existing {how} with annotation_offset={state[1]} changed that {how}")
+    saved_c, saved_s = G["cache"][(kind, variant)], G["snap"][(kind, variant)]
+    G["cache"][(kind, variant)], G["snap"][(kind, variant)] = {fk: (o, root)}, {}
+    G["level"] = f"from-{how}"
+    try:
+        for txt in txts:
+            f2, act, args, tk, ret, ob2 = parse(txt)
+            if kind == "sdv" and act == "Copy":
+                continue
+            check_seq_level(rep, kind, variant, f2, act, args, [(tk, ob2)], ret)
+    finally:
+        G["cache"][(kind, variant)], G["snap"][(kind, variant)] = saved_c, saved_s
+        G["level"] = "seq"
 
 
 def frm_nontrivial(fk):
@@ -528,8 +575,12 @@ def stage(run, scratch, name, cfg, totals, driftacc, tm, sample_rate, **tlc_kw):
         if fk != tk:
             succ[fk].append((tk, txt))
     convalts = defaultdict(list)
+    makes = []
     for txt in conv:
         fk, act, args, tk, ret, obs = parse(txt)
+        if act == "Make":
+            makes.append((fk, args[0], obs))
+            continue
         convalts[(fk, json.dumps(args))].append((tk, obs))
         states.setdefault(fk, None)
         if fk != tk:
@@ -573,6 +624,20 @@ def stage(run, scratch, name, cfg, totals, driftacc, tm, sample_rate, **tlc_kw):
         by_state[fk].append(("conv", fk, json.loads(a), alts))
     for k in seen:
         by_state[k].append(("state", k))
+    # construction from every representation: the root, all calls on it, and a seeded sample of its frame's other edges
+    rnd = random.Random(f"C01-make-{run.seed}")
+    frame_edges = defaultdict(list)
+    for (fk, tk, act, sg), txt in edges.items():
+        frame_edges[fk[: fk.index(",[")]].append((fk, txt))  # "[L,off,mol,sid" prefix of the state key = its frame
+    nsample = 60 if run.tier == "quick" else 400
+    for fk, rep, obs in sorted(makes, key=lambda m: (m[0], m[1])):
+        if rep == "str":
+            continue  # the roots the whole replay starts from
+        fe = frame_edges[fk[: fk.index(",[")]]
+        own = [t for f, t in fe if f == fk]
+        rest = sorted(t for f, t in fe if f != fk and f in seen)
+        rnd.shuffle(rest)
+        by_state[fk].append(("make", fk, rep, obs, own + rest[:nsample]))
     order = sorted(by_state, key=lambda k: (json.loads(k)[:4], k))
     jobs, cur = [], []
     target = max(200, sum(len(v) for v in by_state.values()) // (nproc * 12))
